@@ -1,6 +1,8 @@
 package sym
 
 import (
+	"golang.org/x/tools/go/ssa"
+
 	"verif/engine/smt"
 )
 
@@ -24,6 +26,85 @@ func registerRegen(p *Program) {
 	p.Intr[basePkg+".GetProjectIDFromBatchDenom"] = uf("project_id_of_denom")
 	p.Intr[basePkg+".GetClassIDFromProjectID"] = uf("class_id_of_project_id")
 	p.Intr[basePkg+".GetCreditTypeAbbrevFromClassID"] = uf("abbrev_of_class_id")
+
+	// Formatters on opaque strings: uninterpreted functions plus the lemmas proved at content
+	// level by the C14 harnesses (C14_ClassID, C14_ProjectID, C14_BatchDenom, C14_Injective*).
+	rePat := func(x *Exec, varName string) string {
+		sp := x.P.ByPath[basePkg]
+		if sp == nil {
+			x.Unsupported("package %s not loaded", basePkg)
+		}
+		g, ok := sp.Members[varName].(*ssa.Global)
+		if !ok {
+			x.Unsupported("regexp variable %s not found", varName)
+		}
+		return x.regexpOf(x.load(PtrV{Obj: x.globalObj(g)})).Pattern
+	}
+	reAtom := func(x *Exec, varName string, a *smt.Term) *smt.Term {
+		return x.regexMatch(rePat(x, varName), StrV{Atom: a})
+	}
+	p.Intr[basePkg+".FormatClassID"] = func(x *Exec, c *CallCtx) Value {
+		abbrev := c.Args[0].(StrV)
+		if abbrev.Atom == nil {
+			return x.CallFunction(c.Fn, c.Args, nil)
+		}
+		B := x.B
+		seq := c.Args[1].(IntV).T
+		id := B.App("format_class_id", smt.SStr, abbrev.Atom, seq)
+		x.Summ["lemma-summary:FormatClassID"]++
+		if !x.lenAxiom[id.ID] {
+			x.lenAxiom[id.ID] = true
+			x.Assume(B.And(
+				B.Implies(reAtom(x, "regexCreditTypeAbbrev", abbrev.Atom), reAtom(x, "regexClassID", id)),
+				B.Eq(B.App("abbrev_of_class_id", smt.SStr, id), abbrev.Atom),
+				B.Eq(B.App("seq_of_class_id", smt.SInt, id), seq),
+				B.Not(B.Eq(id, B.StrConst("")))), "lemma: FormatClassID (C14_ClassID, C14_InjectiveClassID)")
+		}
+		return StrV{Atom: id}
+	}
+	p.Intr[basePkg+".FormatProjectID"] = func(x *Exec, c *CallCtx) Value {
+		classID := c.Args[0].(StrV)
+		if classID.Atom == nil {
+			return x.CallFunction(c.Fn, c.Args, nil)
+		}
+		B := x.B
+		seq := c.Args[1].(IntV).T
+		id := B.App("format_project_id", smt.SStr, classID.Atom, seq)
+		x.Summ["lemma-summary:FormatProjectID"]++
+		if !x.lenAxiom[id.ID] {
+			x.lenAxiom[id.ID] = true
+			x.Assume(B.And(
+				B.Implies(reAtom(x, "regexClassID", classID.Atom), B.And(reAtom(x, "regexProjectID", id),
+					B.Eq(B.App("class_id_of_project_id", smt.SStr, id), classID.Atom))),
+				B.Eq(B.App("class_of_project_id_inv", smt.SStr, id), classID.Atom),
+				B.Eq(B.App("seq_of_project_id", smt.SInt, id), seq),
+				B.Not(B.Eq(id, B.StrConst("")))), "lemma: FormatProjectID (C14_ProjectID, C14_InjectiveProjectID)")
+		}
+		return StrV{Atom: id}
+	}
+	p.Intr[basePkg+".FormatBatchDenom"] = func(x *Exec, c *CallCtx) Value {
+		pid := c.Args[0].(StrV)
+		if pid.Atom == nil {
+			return x.CallFunction(c.Fn, c.Args, nil)
+		}
+		B := x.B
+		seq := c.Args[1].(IntV).T
+		start, end := x.timeOf(c.Args[2]), x.timeOf(c.Args[3])
+		day := func(t TimeV) *smt.Term { return B.Div(t.Sec, B.Int(86400)) }
+		d := B.App("format_batch_denom", smt.SStr, pid.Atom, seq, day(start), day(end))
+		x.Summ["lemma-summary:FormatBatchDenom"]++
+		if !x.lenAxiom[d.ID] {
+			x.lenAxiom[d.ID] = true
+			x.Assume(B.And(
+				B.Implies(reAtom(x, "regexProjectID", pid.Atom), B.And(reAtom(x, "regexBatchDenom", d),
+					B.Eq(B.App("project_id_of_denom", smt.SStr, d), pid.Atom),
+					B.Eq(B.App("class_id_of_denom", smt.SStr, d), B.App("class_id_of_project_id", smt.SStr, pid.Atom)))),
+				B.Eq(B.App("project_of_denom_inv", smt.SStr, d), pid.Atom),
+				B.Eq(B.App("seq_of_denom", smt.SInt, d), seq),
+				B.Not(B.Eq(d, B.StrConst("")))), "lemma: FormatBatchDenom (C14_BatchDenom)")
+		}
+		return TupleV{StrV{Atom: d}, IfaceV{}}
+	}
 
 	// gogo <-> pulsar conversions through the wire format: structural field-by-field copy
 	// between the two generated structs of the same proto message (trusted).
